@@ -52,6 +52,35 @@ pub fn run(ctx: &mut Ctx) {
             one(ctx, rng, &t, &order, k, "rand");
         });
     }
+    // several smooth calls in one builder: functions sharing sub-diagrams, each smoothed over a
+    // different number of levels (and the same function at a larger and at a smaller k)
+    for case in ctx.cases("multi", 500, true) {
+        ctx.run_case("multi", case, |ctx, rng| {
+            let n = rng.range(2, 7);
+            let order = rng.perm(n);
+            let (_, base) = interesting_function(n, rng);
+            let mut items: Vec<(Tt, usize)> = Vec::new();
+            for _ in 0..rng.range(2, 6) {
+                let k = rng.range(0, n);
+                // a relative of the base function restricted to the first k levels
+                let mut t = if rng.chance(1, 4) { interesting_function(n, rng).1 } else { base.clone() };
+                for _ in 0..rng.below(2) {
+                    t = t.cofactor(order[rng.below(n)], rng.bool());
+                }
+                for lvl in k..n {
+                    t = t.cofactor(order[lvl], rng.bool());
+                }
+                // sometimes smooth the very same function again over more levels
+                if rng.chance(1, 3) && k < n {
+                    items.push((t.clone(), k));
+                    items.push((t, rng.range(k, n)));
+                } else {
+                    items.push((t, k));
+                }
+            }
+            many(ctx, rng, &items, &order, "multi");
+        });
+    }
 }
 
 /// every path must test var_at_level(0..k-1) exactly once and in order
@@ -102,7 +131,13 @@ fn count_check<'a, S: OSr>(ctx: &mut Ctx, sm: BddPtr<'a>, t: &Tt, w: &[(S, S)], 
 }
 
 fn one(ctx: &mut Ctx, rng: &mut Rng, t: &Tt, order: &[usize], k: usize, regime: &str) {
-    let n = t.n;
+    many(ctx, rng, &[(t.clone(), k)], order, regime);
+}
+
+/// all items are smoothed in ONE builder, in sequence (different functions that share nodes,
+/// different numbers of levels): a `smooth` call must not depend on the earlier ones
+fn many(ctx: &mut Ctx, rng: &mut Rng, items: &[(Tt, usize)], order: &[usize], regime: &str) {
+    let n = items[0].0.n;
     let cfg = HistCfg {
         n0: n,
         max_new: 0,
@@ -113,7 +148,12 @@ fn one(ctx: &mut Ctx, rng: &mut Rng, t: &Tt, order: &[usize], k: usize, regime: 
         nops: 0,
     };
     with_robdd!(cfg, b, {
+      for (idx, (t, k)) in items.iter().enumerate() {
+        let k = *k;
         let p0 = bdd_from_tt(b, t, order, 0);
+        if idx > 0 {
+            ctx.count("smooth_calls_after_earlier_calls_in_the_same_builder", 2);
+        }
         for (p, t) in [(p0, t.clone()), (p0.neg(), t.not())] {
             let mut w = BddWalker::new(n);
             if w.tt(p) != t {
@@ -175,5 +215,6 @@ fn one(ctx: &mut Ctx, rng: &mut Rng, t: &Tt, order: &[usize], k: usize, regime: 
                 ctx.sample(json!({"regime": regime, "input": info}));
             }
         }
+      }
     });
 }
